@@ -930,8 +930,7 @@ def t_cyk(acc, shard, nshard, maxrules=4):
                         new = set(row[ci]) ^ {X}
                         r2 = [list(map(set, rr)) for rr in rows]
                         r2[ri][ci] = new
-                        cands.append(('one cell changed', r2, False))
-                        break
+                        cands.append(('one cell changed', r2, False))      # every variable added to / removed from every cell
             if m >= 2:
                 cands.append(('top row dropped', rows[1:], False))
                 cands.append(('bottom row dropped', rows[:-1], False))
@@ -1145,12 +1144,12 @@ def plan(tier, seed):
     add('t_unary', 32)
     add('t_nfa2dfa', 16)
     add('t_chomsky', 32, stride=64 if q else 8, offset=seed)
-    add('t_cyk', 16, maxrules=3 if q else 4)
+    add('t_cyk', 16, maxrules=4 if q else 5)
     add('t_derivation', 16, maxrules=3 if q else 4)
     tasks.append(('plain', P + 't_direct', {}))
     return {'tasks': tasks,
-            'bounds': {'answers': 'language checkers: all DFA(n<=2,k<=2) / NFA(2,1,{}), NFA(2,2,<=2) / RE({}) / strided CFG2 / PDA(1,1,1,<=3) with finite closures / TM(1,2) answers x reference languages of DFA(2,k) within 2 words of the answer (+ stride of the rest) x max_states 0,1,2; products: DFA(2,k)^2 {} x (full product, reachable product, every single accepting flip, retargeted transitions, other initial state); complement / minimal / reverse / dfa2regexp: references DFA(n<=2,k<=2), DFA(3,1) x all small answers + mutants; nfa2dfa: NFA(2,1), NFA(2,2,<=3) x reference + single-edit mutants incl. epsilon moves; Chomsky: strided CFG2/CFG2+ x own phase outputs offered for every phase + mutants; CYK: CNF(3) with <= {} rules x words <= 3 x right table, every single-cell change, rows dropped / added; derivations: reference derivations of each type + mutants x 3 types'.format(
-                '<=4' if q else 'all', 4 if q else 5, 'stride 1/4' if q else 'all', 3 if q else 4)},
+            'bounds': {'answers': 'language checkers: all DFA(n<=2,k<=2) / NFA(2,1,{}), NFA(2,2,<=2) / RE({}) / strided CFG2 / PDA(1,1,1,<=3) with finite closures / TM(1,2) answers x reference languages of DFA(2,k) within 2 words of the answer (+ stride of the rest) x max_states 0,1,2; products: DFA(2,k)^2 {} x (full product, reachable product, every single accepting flip, retargeted transitions, other initial state); complement / minimal / reverse / dfa2regexp: references DFA(n<=2,k<=2), DFA(3,1) x all small answers + mutants; nfa2dfa: NFA(2,1), NFA(2,2,<=3) x reference + single-edit mutants incl. epsilon moves; Chomsky: strided CFG2/CFG2+ x own phase outputs offered for every phase + mutants; CYK: CNF(3) with <= {} rules x words <= 3 x right table, every variable added to / removed from every single cell, rows dropped / added; derivations: reference derivations of each type + mutants x 3 types'.format(
+                '<=4' if q else 'all', 4 if q else 5, 'stride 1/4' if q else 'all', 4 if q else 5)},
             'exhaustive': True,
             'rule': 'for every exercise checker: every instance x every answer of the listed answer spaces; the real checker is called with stdout captured; OK must imply the criterion evaluated by oracle code; every quoted counterexample word must be a genuine difference with the right polarity (minimal length for the language comparison); non-trivial = OK verdicts on answers that satisfy the criterion',
             'assumptions': ['criteria are the weakest reading of each exercise (complement / reverse: language only; Warning hints are advice)', 'only OK => criterion is demanded; the converse is C13']}
